@@ -2,7 +2,8 @@ from runner import Property, Engine
 import opsgen
 
 # case kinds of the container engine that are integrated (model, proofs, drivers, generator)
-KINDS = [("arr", "Dsa", "DsaModel"), ("llist", "LList", "LListModel"), ("slist", "SList", "SListModel")]
+KINDS = [("arr", "Dsa", "DsaModel"), ("llist", "LList", "LListModel"), ("slist", "SList", "SListModel"),
+         ("ht", "Htable", "HtableModel")]
 
 PROP = Property(
     pid="C19",
